@@ -44,8 +44,8 @@ Proof.
 Qed.
 
 Definition hbody : Poly -> unit -> MY Poly unit :=
-  fun poly tt0 => let hatching := (poly, g_hatch G poly) in
-                  if truthy (snd hatching) then emit_yield hatching ;;; ret tt0 else ret tt0.
+  fun poly _ => let hatching := (poly, g_hatch G poly) in
+                if truthy (snd hatching) then emit_yield hatching ;;; ret tt else ret tt.
 
 Lemma hatch_spec : (forall p, g_is_empty G p = true -> g_hatch G p = O) ->
   forall (pl : list Poly) (ys : yl),
@@ -87,7 +87,7 @@ Proof.
   destruct (insets (g_is_empty G) (g_inset G) (Z.to_nat (tr_num_insets c)) [tr_block c]) as [[ys1 l1] o1].
   cbn [fst snd] in *. subst o1. split; [|reflexivity].
   unfold bind at 1. rewrite Hb. cbv iota beta.
-  change (fun (poly : Poly) (tt0 : unit) => _) with (hbody G).
+  change (fun (poly : Poly) (_ : unit) => _) with (hbody G).
   unfold bind at 1. rewrite (hatch_spec G He). reflexivity.
 Qed.
 Print Assumptions SRC_toolpath.
